@@ -496,7 +496,8 @@ def run_check(prop: str, tier: str, runner, explanation: str,
     returns the exit code."""
     t0 = time.time()
     seed = int(os.environ.get("VERIF_SEED", "0") or 0)
-    evdir = os.path.join(VERIF, "evidence")
+    evdir = os.environ.get("AEGEAN_EVIDENCE_DIR") or \
+        os.path.join(VERIF, "evidence")
     os.makedirs(os.path.join(evdir, "replay"), exist_ok=True)
     evfile = os.path.join(evdir, prop + ".json")
     try:
@@ -543,7 +544,8 @@ def run_check(prop: str, tier: str, runner, explanation: str,
         print("%s:%s: [%s] %s: %s -- %s" % (f.file, f.line, f.rule, f.where,
                                             f.construct, f.message))
         print("VIOLATION property=%s replay=%s" %
-              (prop, os.path.relpath(rp, VERIF)))
+              (prop, os.path.relpath(rp, VERIF)
+               if rp.startswith(VERIF + os.sep) else rp))
         code = 1
     _write_evidence(evfile, prop, tier, seed, explanation, assumptions, ctx,
                     violations, knowns, time.time() - t0)
